@@ -180,13 +180,55 @@ def translate(repo: Path) -> dict:
         if frag not in src_vl:
             raise T.TranslateError(f"verify_leading_dirs: `{frag}` not found")
 
+    # update_working_tree: the delete phase and both pre-checks lstat old paths through _lstat_tracked_path
+    uw = T.find_def(tree, "update_working_tree")
+    src_uw = ast.unparse(uw)
+    n_guard = src_uw.count("_lstat_tracked_path(path, full_path, repo_path)")
+    n_bare = src_uw.count("os.lstat(full_path)")
+    if n_guard == 3 and n_bare == 1:
+        lt = T.find_def(tree, "_lstat_tracked_path")
+        src_lt = ast.unparse(lt)
+        for frag in ("verify_leading_dirs(tree_path, [], repo_path)", "except InvalidPathError as e:\n        raise FileNotFoundError(",
+                     "return os.lstat(full_path)"):
+            if frag not in src_lt:
+                raise T.TranslateError(f"_lstat_tracked_path: `{frag}` not found")
+        delete_guarded = True
+    elif n_guard == 0 and n_bare == 4:
+        delete_guarded = False        # the code before the repair: theorem delete_confined will not compile
+    else:
+        raise T.TranslateError(f"update_working_tree: {n_guard} guarded / {n_bare} bare lstat(full_path) calls")
+    if "delete_stat: os.stat_result | None = " + ("_lstat_tracked_path(path, full_path, repo_path)" if delete_guarded else "os.lstat(full_path)") not in src_uw:
+        raise T.TranslateError("update_working_tree: delete-phase lstat not found")
+    if "modify_stat: os.stat_result | None = os.lstat(full_path)" not in src_uw or \
+            src_uw.index("verify_leading_dirs(path, [], repo_path)") > src_uw.index("modify_stat: os.stat_result | None = os.lstat(full_path)"):
+        raise T.TranslateError("update_working_tree: add/modify phase no longer verifies leading dirs before lstat")
+    # patch.py: every open(<target>, "wb") of the apply code is directly preceded by _remove_symlink_at_target(<target>)
+    ptree = T.module_ast(repo / "dulwich" / "patch.py")
+    n_wb = 0
+    for fn in ("_apply_rename_or_copy", "apply_patches"):
+        body_src = ast.unparse(T.find_def(ptree, fn))
+        for m in re.finditer(r"open\((\w+), 'wb'\)", body_src):
+            n_wb += 1
+            pre = body_src[:m.start()].rstrip().splitlines()
+            # the `with open(...)` line itself is the last one; the statement before it must be the guard
+            prev = pre[-2].strip() if pre[-1].strip().startswith("with") or pre[-1].strip() == "" else pre[-1].strip()
+            if prev != f"_remove_symlink_at_target({m.group(1)})":
+                raise T.TranslateError(f"patch.{fn}: open({m.group(1)}, 'wb') is not preceded by _remove_symlink_at_target "
+                                       f"(a symlink at the patch target would be written through)")
+    if n_wb != 3:
+        raise T.TranslateError(f"patch.py: expected 3 open(..., 'wb') in the apply code, found {n_wb}")
+    rs = ast.unparse(T.find_def(ptree, "_remove_symlink_at_target"))
+    for frag in ("st = os.lstat(fs_path)", "except FileNotFoundError:\n        return", "if stat.S_ISLNK(st.st_mode):\n        os.unlink(fs_path)"):
+        if frag not in rs:
+            raise T.TranslateError(f"_remove_symlink_at_target: `{frag}` not found")
+
     def lb(b):
         return T.lean_bytes(b)
 
     src = T.lean_header("dulwich/index.py: INVALID_DOTNAMES, HFS_IGNORABLE_CHARS, _normalize_path_element_*, "
                         "_is_ntfs_dotgit, validate_path_element_{default,ntfs,hfs}, validate_path, "
                         "get_path_element_validator, cleanup_mode, build_file_from_blob, build_index_from_tree, "
-                        "verify_leading_dirs") + f"""
+                        "verify_leading_dirs, _lstat_tracked_path, update_working_tree; dulwich/patch.py: write sites") + f"""
 namespace Dulwich.Gen.PathSafe
 /-- `INVALID_DOTNAMES` -/
 def invalidDotnames : List (List UInt8) := [{", ".join(lb(x) for x in dotnames)}]
@@ -225,6 +267,8 @@ def protectNtfsDefault : Bool := {d_ntfs.lower()}
 def cleanupBase : Nat := {cm_base}
 def cleanupExecTest : Nat := {cm_test}
 def cleanupExecBits : Nat := {cm_or}
+/-- does `update_working_tree` lstat old paths (delete phase, both pre-checks) through `_lstat_tracked_path`? -/
+def deleteGuarded : Bool := {str(delete_guarded).lower()}
 end Dulwich.Gen.PathSafe
 """
     return {"PathSafe": src}
@@ -442,20 +486,42 @@ def _stream_misc(ctx):
 # A tree spec is a list of entries {"n": hex name, "m": mode, and one of "blob": hex | "link": hex | "tree": [...] |
 # "gitlink": 1}; names are arbitrary bytes (may contain '/'); entries are written raw, in the given order.
 
-GIT_LEGIT = ("index", "HEAD", "ORIG_HEAD", "packed-refs", "FETCH_HEAD", "index.lock")
-GIT_LEGIT_DIRS = ("refs", "logs", "objects")
+# Files an operation may legitimately rewrite inside wt/.git, PER OPERATION (everything else under .git, and
+# everything outside the work tree, must be byte-identical before/after the step).  `objects/` is special: object
+# files are content-addressed, so an existing one never changes; new ones may appear.
+_REFS = ("HEAD", "ORIG_HEAD", "packed-refs", "refs/", "logs/")
+ENTITLED = {
+    "reset_hard": ("index",) + _REFS, "reset_mixed": ("index",) + _REFS, "reset_soft": _REFS,
+    "checkout": ("index",) + _REFS, "build_index": ("index",), "checkout_paths": ("index",),
+    "stash_pop": ("index", "refs/stash", "logs/"), "patch": ("index",), "patch_to": ("index",),
+}
+_RE_HEAD = re.compile(rb"^(ref: refs/[\w/.-]+|[0-9a-f]{40})\n$")
+_RE_REF = re.compile(rb"^[0-9a-f]{40}\n$")
+_RE_LOGLINE = re.compile(rb"^[0-9a-f]{40} [0-9a-f]{40} .* \d+ [+-]\d{4}(\t.*)?$")
+
+
+def _control_file_ok(rel_git: str, data: bytes) -> bool:
+    """Does a rewritable control file still look like what dulwich writes there?  (Detects a hostile blob or patch
+    written THROUGH a symlink into HEAD / a ref / a reflog / the index.)"""
+    if rel_git == "index":
+        return data[:4] == b"DIRC"
+    if rel_git == "HEAD":
+        return bool(_RE_HEAD.match(data))
+    if rel_git == "ORIG_HEAD" or rel_git.startswith("refs/"):
+        return bool(_RE_REF.match(data))
+    if rel_git.startswith("logs/"):
+        return all(_RE_LOGLINE.match(l) for l in data.split(b"\n") if l)
+    if rel_git == "packed-refs":
+        return all(l.startswith((b"#", b"^")) or re.match(rb"^[0-9a-f]{40} \S+$", l) for l in data.split(b"\n") if l)
+    return True
 
 
 def _snap(base: str):
-    """{relpath: descriptor} of everything under base except the work-tree payload (outer/wt minus outer/wt/.git).
-    Inside wt/.git the files an operation legitimately rewrites are recorded by type only."""
+    """{relpath: descriptor} of everything under base except the work-tree payload (outer/wt minus outer/wt/.git):
+    ("dir", mode) | ("link", target) | ("file", mode, sha1, looks-valid) | ("other", mode)."""
     out = {}
     wt = os.path.join(base, "outer", "wt")
     gitdir = os.path.join(wt, ".git")
-
-    def legit(rel_git: str) -> bool:
-        top = rel_git.split("/", 1)[0]
-        return rel_git in GIT_LEGIT or top in GIT_LEGIT_DIRS
 
     def walk(d):
         try:
@@ -470,34 +536,44 @@ def _snap(base: str):
                 continue
             st = os.lstat(p)
             m = stat.S_IMODE(st.st_mode)
-            in_git = p.startswith(gitdir + os.sep)
-            lg = in_git and legit(os.path.relpath(p, gitdir))
             if stat.S_ISLNK(st.st_mode):
                 out[rel] = ("link", os.readlink(p))
             elif stat.S_ISDIR(st.st_mode):
-                out[rel] = ("dir",) if lg else ("dir", m)
+                out[rel] = ("dir", m)
                 walk(p)
             elif stat.S_ISREG(st.st_mode):
-                if lg:
-                    out[rel] = ("file",)
-                else:
-                    with open(p, "rb") as f:
-                        out[rel] = ("file", m, hashlib.sha1(f.read()).hexdigest())
+                with open(p, "rb") as f:
+                    data = f.read()
+                ok = _control_file_ok(os.path.relpath(p, gitdir), data) if p.startswith(gitdir + os.sep) else True
+                out[rel] = ("file", m, hashlib.sha1(data).hexdigest(), ok)
             else:
                 out[rel] = ("other", m)
     walk(base)
     return out
 
 
-def _snap_diff(a: dict, b: dict) -> list:
+def _snap_diff(a: dict, b: dict, op: str = "") -> list:
+    """Changes the step was NOT entitled to make."""
     d = []
+    gpre = "outer/wt/.git/"
+    ent = ENTITLED.get(op, ())
     for k in sorted(set(a) | set(b)):
         x, y = a.get(k), b.get(k)
         if x == y:
             continue
-        # files/dirs an operation legitimately creates or removes in the control dir (recorded by type only)
-        if (x is None or len(x) == 1) and (y is None or len(y) == 1) and (x is None or y is None):
-            continue
+        if k.startswith(gpre):
+            rg = k[len(gpre):]
+            if rg.endswith(".lock") and (x is None or y is None):
+                continue
+            if rg.startswith("objects/"):
+                # new object files / fan-out directories may appear; nothing that existed may change or vanish
+                if x is None and y is not None and y[0] in ("file", "dir"):
+                    continue
+            elif any(rg == e or (e.endswith("/") and (rg.startswith(e) or rg + "/" == e)) for e in ent):
+                # rewritable by this operation: fine as long as the result is a regular, plausible control file
+                # (or a directory, or gone) — not a symlink, not foreign content
+                if y is None or y[0] == "dir" or (y[0] == "file" and y[3]):
+                    continue
         d.append([k, list(x) if x is not None else None, list(y) if y is not None else None])
     return d
 
@@ -712,7 +788,7 @@ def impl_scenario(a):
         except Exception as e:
             out = type(e).__name__ + ": " + str(e)[:120]
         after = _snap(base)
-        res.append({"op": op, "out": out, "diff": _snap_diff(before, after), "wt": _wt_listing(wt),
+        res.append({"op": op, "out": out, "diff": _snap_diff(before, after, op), "wt": _wt_listing(wt),
                     "links": pre_links, "old_index": old_index, "old_head": old_head})
     try:
         r.close()
@@ -942,8 +1018,9 @@ def tree_paths(spec, prefix=b""):
 
 
 LINK_TARGETS = [b"../outside_dir", b"..", b".git", b".git/hooks", b".git/canary_dir", b"../outside_dir/sub", b".",
-                b"sib", b"../empty_dir", b"/ABS/outer/outside_dir", b"../outside_dir/x", b".git/canary", b".git/config"]
-KEY_TARGETS = (b"../outside_dir", b".git/canary_dir", b".git/canary", b"../outside_dir/x")
+                b"sib", b"../empty_dir", b"/ABS/outer/outside_dir", b"../outside_dir/x", b".git/canary", b".git/config",
+                b".git/HEAD", b".git/index", b".git/refs/heads/master", b".git/refs/heads", b".git/logs", b".git/objects"]
+KEY_TARGETS = (b"../outside_dir", b".git/canary_dir", b".git/canary", b"../outside_dir/x", b".git/HEAD", b".git/refs/heads")
 UNSAFE_NAMES = [b".git", b".GIT", b".Git", b".git ", b".git.", b".git . .", b"git~1", b"GIT~1", b"git~1 .",
                 b".git::$INDEX_ALLOCATION", b".git:stream", b".g\xe2\x80\x8cit", b"\xef\xbb\xbf.git", b".gi\xe2\x80\xaet",
                 b"a\\.git", b".git\\x", b"..", b".", b"", b". ", b".. "]
@@ -1286,10 +1363,12 @@ def run(ctx: core.Ctx):
         "`confined`/`safe_prefix_sound` are proved for build_index_from_tree (clone, reset_index; stash pop runs the same "
         "verify+write loop); the add/modify phase of update_working_tree, checkout(paths=), restore and patch "
         "application are covered by the direct oracle only (sandbox with canaries, snapshot before/after each step)",
-        "the snapshot records index, HEAD, ORIG_HEAD, packed-refs, FETCH_HEAD, refs/**, logs/**, objects/** inside "
-        "wt/.git by type only (operations legitimately rewrite them): a write THROUGH a hostile symlink into exactly "
-        "those files would not be seen; every other path under the sandbox (outside wt, and the rest of wt/.git) is "
-        "compared by type, mode, link target and content hash",
+        "snapshot oracle: every path of the sandbox outside the work-tree payload (incl. all of wt/.git) is compared by "
+        "type, mode, link target and content hash before/after each step; inside wt/.git a step may change only what "
+        "that operation is entitled to rewrite (ENTITLED table: e.g. patch/build_index -> index only; reset -> index, "
+        "HEAD, ORIG_HEAD, refs/**, logs/**), and only into a regular file that still looks like that control file "
+        "(HEAD/ref/reflog/index syntax) — a write redirected through a symlink with foreign content is reported; "
+        "existing object files may never change, new ones may appear",
     ]
     _stream_misc(ctx)
     _stream_fragments(ctx)
@@ -1483,12 +1562,8 @@ def _stream_sequences(ctx, scale=1, full=False, stream_prefix="seq"):
     try:
         for f in sorted((core.VERIF / "corpus" / "C17").glob("*.json")):
             c = json.loads(f.read_text())
-            before = dict(ctx.known_hit)
-            nf = len(ctx.oracle_failures)
-            run_scenario(ctx, w, "seq.corpus", c["case"], f.stem, n)
+            run_scenario(ctx, w, "seq.corpus", c["case"], f.stem, n)   # past failures: must hold now
             n += 1
-            if c.get("expect_class") and ctx.known_hit == before and len(ctx.oracle_failures) == nf:
-                ctx.notes.append(f"corpus witness {f.name} no longer fails (finding fixed?)")
         fixed = fixed_scenarios()
         ctx.extra_cov["fixed_scenarios_total"] = len(fixed)
         if not full and not ctx.thorough and not (ctx.lean is not None and not ctx.lean.ok):
